@@ -137,6 +137,31 @@ def r_memoryview(bs, cls, bits, ctx):
     return getattr(bs, cls)(memoryview(to_bytes(bits)))
 
 
+def interleave(by):
+    """bytes with a junk byte after each payload byte: memoryview(...)[::2] is the payload, non-contiguous."""
+    return bytes(b for x in by for b in (x, 0xA5))
+
+
+@route('memoryview_strided', "bitstring.{cls}(memoryview({by2!r})[::2])")
+def r_memoryview_strided(bs, cls, bits, ctx):
+    if len(bits) % 8 or not bits:
+        return None
+    return getattr(bs, cls)(memoryview(interleave(to_bytes(bits)))[::2])
+
+
+@route('memoryview_reversed', "bitstring.{cls}(bytes=memoryview({byr!r})[::-1])")
+def r_memoryview_reversed(bs, cls, bits, ctx):
+    if len(bits) % 8 or not bits:
+        return None
+    return getattr(bs, cls)(bytes=memoryview(to_bytes(bits)[::-1])[::-1])
+
+
+@route('memoryview_strided_off', "bitstring.{cls}(bytes=memoryview({emb3s!r})[::2], offset=3, length={n})")
+def r_memoryview_strided_off(bs, cls, bits, ctx):
+    by, off, n = embed(bits, 3)
+    return getattr(bs, cls)(bytes=memoryview(interleave(by))[::2], offset=off, length=n)
+
+
 @route('array_B', "bitstring.{cls}(__import__('array').array('B', {by!r}))")
 def r_array(bs, cls, bits, ctx):
     if len(bits) % 8:
@@ -308,7 +333,7 @@ def source(name, cls, bits):
     fmt = dict(cls=cls, bits=bits, n=n, lit=_lit(bits), by=to_bytes(bits),
                hex=format(int(bits, 2), f'0{n // 4}x') if bits and n % 4 == 0 else '',
                oct=format(int(bits, 2), f'0{n // 3}o') if bits and n % 3 == 0 else '',
-               emb0=embed(bits, 0)[0], emb3=embed(bits, 3)[0], emb8=embed(bits, 8)[0], bits5='10' + bits + '011',
+               by2=interleave(to_bytes(bits)), byr=to_bytes(bits)[::-1], emb3s=interleave(embed(bits, 3)[0]), emb0=embed(bits, 0)[0], emb3=embed(bits, 3)[0], emb8=embed(bits, 8)[0], bits5='10' + bits + '011',
                dbl=''.join(c + '1' for c in bits), h1=bits[:n // 2], h2=bits[n // 2:], uint=int(bits, 2) if bits else 0)
     return src.format(**fmt)
 
